@@ -206,6 +206,8 @@ def work(desc):
         out["inconclusive"] = "generator error %r" % (e,)
         return out
     out["sha"] = core.sha(r.text)[:12]
+    if int(out["sha"][:3], 16) % 97 == 0 and len(r.text) < 1500:
+        out["sample_src"] = r.text
     try:
         res = M.run(prog, r, fuel=20000)
         out["model"] = "ok" if res.ok else res.error.kind
@@ -310,6 +312,8 @@ def run(rep, tier):
             rep.tally("alias_shape", "%s/%s" % (d[1], d[2]))
             rep.tally("alias_operation", d[3])
             same_cell_events += res.get("same_cell", 0)
+        if res.get("sample_src"):
+            rep.actual_sample({"desc": repr(d)[:200], "source": res["sample_src"], "exit_status": res["code"]})
         if res["viol"]:
             rep.violation(*res["viol"])
     # memory-error sanitizer over a sample of the same workload
